@@ -98,8 +98,10 @@ CONTRACTS = {
         types={"oVhdlFile": "obj:vsg.vhdlFile.vhdlFile.vhdlFile", "dConfig": "dict[str,str]"},
         # representation invariant of vhdlFile (every line of the model is terminated by a carriage_return token:
         # _processFile appends one per input line) — assumed here, observed by the bounded layer
-        requires=["oserr == ''", "len(oVhdlFile.lAllObjects) == 0 or isinstance(oVhdlFile.lAllObjects[len(oVhdlFile.lAllObjects) - 1], parser.carriage_return)"],
-        modifies=["ghost:fs_exists", "ghost:fs_content", "ghost:fs_mode", "ghost:oserr"],
+        requires=["oserr == ''"],
+        assume=["len(oVhdlFile.lAllObjects) == 0 or isinstance(oVhdlFile.lAllObjects[len(oVhdlFile.lAllObjects) - 1], parser.carriage_return)"],
+        modifies=["ghost:fs_exists", "ghost:fs_content", "ghost:fs_mode", "ghost:oserr", "ghost:oplog"],
+        ghost_exit={"oplog": "oplog + ['write']"},
         raises=["OSError", "FileNotFoundError"],
         # crash points and failing calls: whatever happens, the target holds its complete original or the complete
         # fixed content, with its original permission bits
@@ -109,6 +111,7 @@ CONTRACTS = {
             "fs_content[oVhdlFile.filename] == old(fs_content)[oVhdlFile.filename] or fs_content[oVhdlFile.filename] == " + FIXED,
         ],
         ensures=[
+            "oplog == old(oplog) + ['write']",
             "implies(oserr == '', fs_content[oVhdlFile.filename] == " + FIXED + ")",
             "oserr == '' or oserr == 'PermissionError'",  # only a PermissionError is swallowed
             "not fs_exists[oVhdlFile.filename + '.tmp']",  # temporary file removed
@@ -121,12 +124,15 @@ CONTRACTS = {
     ),
     "vsg.apply_rules.create_backup_file": dict(
         types={"sFileName": "str"},
-        modifies=["ghost:fs_exists", "ghost:fs_content", "ghost:fs_mode", "ghost:oserr"],
+        modifies=["ghost:fs_exists", "ghost:fs_content", "ghost:fs_mode", "ghost:oserr", "ghost:oplog"],
+        ghost_exit={"oplog": "oplog + ['backup']"},
         raises=["OSError", "FileNotFoundError", "PermissionError"],
         ensures=[
+            "oplog == old(oplog) + ['backup']",
             "fs_content[sFileName + '.bak'] == old(fs_content)[sFileName]",
             "fs_mode[sFileName + '.bak'] == old(fs_mode)[sFileName]",
             "fs_content[sFileName] == old(fs_content)[sFileName] and fs_mode[sFileName] == old(fs_mode)[sFileName]",
+            "oserr == old(oserr)",
         ],
     ),
 }
